@@ -52,10 +52,16 @@ def run (j : Json) : Except String Json := do
     | .ok evs =>
       let bs := batchSampler evs
       let resolved := bs.1.map (fun b => b.map (fun i => let r := concatGet (dsSizes a) i; [r.1, r.2]))
+      let total := (cumsum 0 (dsSizes a)).getLastD 0
+      let negs := (List.range (total + 2)).map (fun (k : Nat) =>
+        match concatGetInt (dsSizes a) (-(Int.ofNat k + 1)) with
+        | some r => ofNatList [r.1, r.2]
+        | none => Json.str "ValueError")
       pure (Json.mkObj [("ctor", "ok"), ("start", ofNatList [st.epoch, st.update, st.sample]), ("iter", "ok"), ("repeat_ok", Json.bool true),
         ("evs", Json.arr (evs.map evJson).toArray),
         ("batches", ofNatListList bs.1), ("rest", ofNatList bs.2),
-        ("resolved", Json.arr (resolved.map ofNatListList).toArray)])
+        ("resolved", Json.arr (resolved.map ofNatListList).toArray),
+        ("neg", Json.arr negs.toArray)])
 
 def handle (op : String) (j : Json) : Except String Json :=
   match op with
